@@ -165,6 +165,14 @@ func runBinder(c *Case) Verdict {
 		if eerr == nil {
 			return bad("panic-value-lost")
 		}
+		// "still wraps the original": the value the function panicked with is what a handler gets
+		var le interface{ ErrorValue() types.MalType }
+		if !errors.As(eerr, &le) {
+			return bad("panic-value-not-a-lisp-error")
+		}
+		if s, ok := le.ErrorValue().(string); !ok || s != "binder-panic-string" {
+			return bad("panic-value-replaced")
+		}
 	}
 	v.Verdict = "ok"
 	return v
